@@ -49,6 +49,14 @@ def p_pair(ab):
         return '==/!= inconsistent for (%r,%r)' % (a, b)
     if va == vb and (r != 0 or hash(va) != hash(vb)):
         return '%r == %r but compare=%r or hashes differ' % (a, b, r)
+    # whatever a version compares == to hashes like it (a plain string or tuple is either not equal to a version, or usable
+    # in its place as a set member and dictionary key)
+    for other in (a, a.strip(), str(va), va.tuple(), tuple(va.tuple())):
+        try:
+            if (va == other or other == va) and (hash(va) != hash(other) or other not in {va} or va not in {other}):
+                return '%r == %r (a %s) holds but they do not hash alike / are not found in each other\'s sets' % (va, other, type(other).__name__)
+        except TypeError:
+            pass
     # the answer depends on the three parts a version holds, however the object came to hold them: derived from
     # another (already compared) version with attr.evolve, copied, built from the parts
     import attr
@@ -140,35 +148,7 @@ def run(ctx):
         lists.append(list(p))
     fails += ctx.prop('prop:sorted', lists, p_sorted)
 
-    # versions hashed here, pickled, and loaded by an interpreter with another hash seed: equal to and hashing like
-    # the versions parsed there, found in its sets and dictionaries
-    import os
-    import pickle
-    import subprocess
-    import sys
-    sample = pool[:ctx.n(400, 4000)]
-    objs = [Version.from_string(x) for x in sample]
-    _ = [hash(o) for o in objs], {o: 1 for o in objs}, sorted(objs)
-    pk = os.path.join(ctx.scratch, 'versions.pickle')
-    with open(pk, 'wb') as f:
-        pickle.dump((sample, objs), f)
-    code = ('import pickle,sys\nfrom debian_inspector.version import Version\nsample, objs = pickle.load(open(sys.argv[1], "rb"))\n'
-            'for s, o in zip(sample, objs):\n    v = Version.from_string(s)\n'
-            '    ok = (o == v) and hash(o) == hash(v) and o in {v} and v in {o} and {o: 1}.get(v) == 1 and o.compare(v) == 0 and str(o) == str(v)\n'
-            '    if not ok:\n        print(s)\n        break\n')
-    env = dict(os.environ)
-    env['PYTHONHASHSEED'] = '99'
-    from harness import common as _c
-    env['PYTHONPATH'] = os.path.join(_c.REPO, 'src')
-    r = subprocess.run([sys.executable, '-c', code, pk], env=env, stdout=subprocess.PIPE, stderr=subprocess.PIPE, text=True, timeout=600)
-    st = ctx.stream('prop:pickled-to-another-process')
-    st['cases'] = len(sample)
-    os.unlink(pk)
-    if r.returncode != 0:
-        fails.append((sample[:3], 'loading pickled versions in another interpreter raises: ' + r.stderr.strip()[-300:]))
-    elif r.stdout.strip():
-        st['prop_failures'] = 1
-        fails.append((r.stdout.strip(), 'a version hashed, pickled and loaded by an interpreter with another hash seed is not equal to, or does not hash like, the same version parsed there'))
+    fails += _ver.pickled_to_another_process(ctx, pool[:ctx.n(400, 4000)])
 
     fails.sort(key=lambda f: len(repr(f[0])))
     for x, why in fails[:10]:
